@@ -97,3 +97,26 @@ PLAN["C01"] = {
     ],
     "scope_note": "Verus: not_inplace unbounded. Kani: complete per size for LutN 0..12, Lut 0..14, kernel lengths 1,2,4,...,256.",
 }
+
+
+PLAN["C11"] = {
+    "level": "proof",
+    "technique": "Verus contracts on the real fill_one/fill_zero (all n < 64) + Kani contract triples on every named constructor of Lut/LutN per size with k and the count mask symbolic over all of usize, against a population-count oracle on a symbolic assignment",
+    "level_text": "zero/one are proved for every n by Verus. nth_var, symmetric, equals, threshold, parity, majority, Default are proved per type LutN N=0..12 and Lut n=0..14 by fully unwound Kani triples: for every count mask c and every k in the whole usize range (so 63, 64, 65, usize::MAX are covered) and every assignment m, the value is the named function of popcount(m); no arithmetic overflow or panic; result well-formed.",
+    "level_note": "Trusted: Verus/Z3/vstd, Kani/CBMC, rustc. fill_nth_var/fill_symmetric use enumerate()/count_ones, outside Verus's subset: complete per size, not unbounded.",
+    "verus_units": ["kernels"],
+    "kani_units": ["spec_ops.rs", "c11_constructors.rs"],
+    "kani_filters": {"quick": ["c11q_"], "thorough": ["c11t_"]},
+    "kani_scope": {r"_s_": "complete(LutN, fixed N: all k / count masks over usize, all assignments)", r"_d_": "complete(Lut, fixed n: all k / count masks over usize, all assignments)"},
+    "harness_timeout": {"quick": 600, "thorough": 3600},
+    "functions": ["operations::" + f for f in ["fill_one", "fill_zero", "fill_nth_var", "fill_symmetric", "fill_parity", "fill_equals", "fill_threshold", "fill_majority", "num_vars_mask", "table_size"]]
+                 + ["Lut::/StaticLut::{zero, one, nth_var, symmetric, equals, threshold, parity, majority, default, num_vars, num_bits, num_blocks}"],
+    "twins": {
+        "fill_one": {"filters": ["c11q_s_const", "c11t_s_const", "c11q_d_const", "c11t_d_const"], "complete": True},
+        "fill_zero": {"filters": ["c11q_s_const", "c11t_s_const", "c11q_d_const", "c11t_d_const"], "complete": True},
+    },
+    "assumptions": _VERUS_ASSUMED + [
+        "Kani triples fix the size per harness: LutN 0..12, Lut 0..14 (the property's range)",
+    ],
+    "scope_note": "Verus: fill_one/fill_zero unbounded. Kani: complete per size for LutN 0..12 and Lut 0..14, k and count masks over all of usize.",
+}
